@@ -141,12 +141,22 @@ pub fn scenario_rerandomized_signing<C: Suite>(rng: &mut TestRng, p: &Params, no
         Some(v) => *v,
         None => return skip("internal"),
     };
-    let variant = ["one-pair-replaced", "one-removed", "one-added"][rng.below(3)];
+    let variant = ["one-pair-replaced", "one-binding-commitment-replaced", "one-hiding-commitment-replaced", "one-removed", "one-added"][rng.below(5)];
     notes.insert("commitment_set_variant".into(), json!(variant));
     match variant {
         "one-pair-replaced" => {
             if let Some(c) = commitments_b.get(&victim) {
                 cm.insert(victim, *c);
+            }
+        }
+        "one-binding-commitment-replaced" | "one-hiding-commitment-replaced" => {
+            if let (Some(a), Some(b)) = (cm.get(&victim).copied(), commitments_b.get(&victim)) {
+                let mixed = if variant.starts_with("one-binding") {
+                    fc::round1::SigningCommitments::<C>::new(*a.hiding(), *b.binding())
+                } else {
+                    fc::round1::SigningCommitments::<C>::new(*b.hiding(), *a.binding())
+                };
+                cm.insert(victim, mixed);
             }
         }
         "one-removed" => {
@@ -254,6 +264,61 @@ pub fn scenario_rerandomized_cheaters_and_threshold<C: Suite>(rng: &mut TestRng,
             let lying = fc::keys::KeyPackage::<C>::new(*kp.identifier(), *kp.signing_share(), *kp.verifying_share(), *kp.verifying_key(), m as u16);
             if let Ok(sh) = rr::sign_with_randomizer_seed::<C>(&package, n, &lying, &seed) {
                 few_shares.insert(*id, sh);
+            }
+        }
+    }
+    // Colluders that know the whole secret (e.g. the dealer) can make m < t shares that DO add up: the
+    // last "participant" uses s' = (s - sum_{i != j} lambda_i s_i) / lambda_j.  The coordinator holding the
+    // genuine public key package must still refuse, because fewer than min_signers shares were submitted.
+    let all: Vec<fc::keys::KeyPackage<C>> = s.keys.key_packages.values().cloned().collect();
+    if let (Ok(sk), Some(last)) = (fc::keys::reconstruct::<C>(&all), few.last().copied()) {
+        let xs: Vec<Sc<C>> = few.iter().map(id_scalar::<C>).collect::<Result<_, _>>()?;
+        let mut rest = zero::<C>();
+        let mut lam_last = None;
+        for id in &few {
+            let lam = match lagrange::<C>(&xs, &id_scalar::<C>(id)?, &zero::<C>()) {
+                Some(l) => l,
+                None => return skip("lagrange"),
+            };
+            if *id == last {
+                lam_last = Some(lam);
+            } else if let Some(kp) = s.keys.key_packages.get(id) {
+                rest = rest + lam * share_scalar::<C>(kp.signing_share())?;
+            }
+        }
+        let secret = sk.to_scalar();
+        let inv = lam_last.and_then(|l| <Fd<C> as frost_core::Field>::invert(&l).ok());
+        if let (Some(inv), Some(kp), Some(n)) = (inv, s.keys.key_packages.get(&last), nonces.get(&last)) {
+            let forged_share = (secret - rest) * inv;
+            let forged = fc::keys::KeyPackage::<C>::new(
+                last,
+                make_signing_share::<C>(&forged_share)?,
+                *kp.verifying_share(),
+                *kp.verifying_key(),
+                m as u16,
+            );
+            if let Ok(sh) = rr::sign_with_randomizer_seed::<C>(&package, n, &forged, &seed) {
+                let mut crafted = few_shares.clone();
+                crafted.insert(last, sh);
+                if crafted.len() == few.len() {
+                    for (name, mode) in [
+                        ("FirstCheater", CheaterDetection::FirstCheater),
+                        ("AllCheaters", CheaterDetection::AllCheaters),
+                        ("Disabled", CheaterDetection::Disabled),
+                    ] {
+                        if let Ok(sig) = rr::aggregate_custom::<C>(&package, &crafted, &s.keys.pubkeys, mode, &params) {
+                            return fail(
+                                &format!("the rerandomized coordinator refuses to aggregate {m} < {} shares even when colluders made them add up ({name})", p.t),
+                                "Err(..)",
+                                format!(
+                                    "Ok({}); verifies under the randomized key: {}",
+                                    short_dbg(&sig),
+                                    params.randomized_verifying_key().verify(&p.message, &sig).is_ok()
+                                ),
+                            );
+                        }
+                    }
+                }
             }
         }
     }
